@@ -194,7 +194,76 @@ def h_token_damage(fmt_sel: int, line: int, tok: int, kind: int) -> bool:
     toks[t] = new
     lines[i] = " ".join(x for x in toks if x != "") + "\n"
     text = "".join(lines)
-    return judge_counts_and_refs(fmt, text)
+    return judge_counts_and_refs(fmt, text) and judge_record(fmt, text, i)
+
+
+def _line_map(fmt):
+    """line index -> (molecule, section, record index) of the generated text"""
+    out, mol, sec, rec = {}, -1, None, 0
+    lines = TEXTS[fmt].splitlines()
+    if fmt == "mol2":
+        for i, l in enumerate(lines):
+            if l.startswith("@<TRIPOS>"):
+                sec, rec = l[9:], 0
+                if sec == "MOLECULE":
+                    mol += 1
+                continue
+            if sec in ("ATOM", "BOND") and l.strip():
+                out[i] = (mol, sec, rec)
+                rec += 1
+            elif sec == "MOLECULE":
+                out[i] = (mol, "HEAD", rec)
+                rec += 1
+    else:
+        i = 0
+        while i < len(lines):
+            n = int(lines[i].split()[0])
+            mol += 1
+            out[i], out[i + 1] = (mol, "HEAD", 0), (mol, "HEAD", 1)
+            for r in range(n):
+                out[i + 2 + r] = (mol, "ATOM", r)
+            i += 2 + n
+    return out
+
+
+LINE_MAP = {f: _line_map(f) for f in TEXTS}
+
+
+def judge_record(fmt, text, line):
+    """token corruption in one record: besides the count clause, everything the damaged record does not describe has the content of the undamaged file:
+    the other molecules, and in the damaged molecule every atom (element, label, coordinates, charge) and every bond other than the damaged record"""
+    where = LINE_MAP[fmt].get(line)
+    if where is None or where[1] == "HEAD":
+        return True
+    k, sec, r = where
+    try:
+        res = parse(fmt, text)
+    except BudgetExceeded:
+        return False
+    except Exception:
+        return True
+    for kk, m in enumerate(res[:len(REF[fmt])]):
+        got, ref = sig(m, fmt), REF[fmt][kk]
+        if kk != k:
+            if got != ref:
+                return False
+            continue
+        if got["n"] != ref["n"]:
+            return False
+        for i in range(ref["n"]):
+            if sec == "ATOM" and i == r:
+                continue
+            if got["els"][i] != ref["els"][i] or got["xyz"][i] != ref["xyz"][i]:
+                return False
+            if fmt == "mol2" and (got["labels"][i] != ref["labels"][i] or got["q"][i] != ref["q"][i]):
+                return False
+        if fmt == "mol2":
+            if got["name"] != ref["name"] or len(got["bonds"]) != len(ref["bonds"]):
+                return False
+            for j in range(len(ref["bonds"])):
+                if not (sec == "BOND" and j == r) and got["bonds"][j] != ref["bonds"][j]:
+                    return False
+    return True
 
 
 def judge_counts_and_refs(fmt, text):
